@@ -248,7 +248,7 @@ def prove(ctx, prop_files, facts=None):
         ctx.broken_obligation = "audit"
         return False
     with BuildLock():
-        sh(["coq_makefile", "-f", "_CoqProject", "-o", "Makefile.coq"], cwd=COQ)
+        sh(["make", "-s", "project"], cwd=VERIF)
         all_ok = True
         for pf in prop_files:
             vo = os.path.join(COQ, pf.replace(".v", ".vo"))
@@ -324,9 +324,9 @@ def parse_assumptions(out):
     return reports
 
 
-def build_oracle(ctx):
+def build_oracle(ctx, group):
     with BuildLock():
-        rc, out, err = sh(["make", "-s", "oracle"], cwd=VERIF, timeout=1800)
+        rc, out, err = sh(["make", "-s", "oracle-" + group], cwd=VERIF, timeout=1800)
     if rc != 0:
         ctx.notes.append("oracle build failed: " + (out + err)[-2000:])
         return None
@@ -334,7 +334,7 @@ def build_oracle(ctx):
         "Coq extraction (ExtrOcamlBasic directives only; numbers and bytes stay inductive) + OCaml 4.13.1",
         "extract/driver.ml, conv.ml (parsing/printing glue)",
     ]
-    return os.path.join(EXTRACT, "oracle")
+    return os.path.join(EXTRACT, group, "oracle")
 
 
 def cc(ctx, out_name, sources, extra=(), libs=(), san=True, defs=()):
